@@ -127,7 +127,7 @@ pub fn generate(tier: &str, seed: u64, out: &Path, nshards: usize, replay: Optio
         let extra = rng.below(4);
         for _ in 0..extra {
             let d = rng.below(p.defs.len());
-            let args: Vec<Src> = (0..p.defs[d].params.len()).map(|_| reggen::rand_arg(&mut rng, 0)).collect();
+            let args: Vec<Src> = { let cps = reggen::compact_params(&p.defs[d]); (0..p.defs[d].params.len()).map(|i| if cps.contains(&i) { Src::Prim("u32") } else { reggen::rand_arg(&mut rng, 0) }).collect() };
             p.roots.push(Src::App(d, args));
         }
         let mut s = SettingsSpec::default();
